@@ -7,6 +7,7 @@ import (
 	"crypto"
 	"encoding/binary"
 	"fmt"
+	"io"
 	"os"
 	"strconv"
 	"strings"
@@ -25,7 +26,7 @@ func init() {
 	hx.Register(&hx.Prop{
 		ID:    "C01",
 		Level: "exploration",
-		Rule: "PE layouts from the product {PE32,PE32+} x e_lfanew{0x40,0x48,0x80} x section count 0..n x every file order vs header order x raw size{0,8,13} x gap{0,4} x SizeOfHeaders slack{0,16} x trailing length 0..9 x certificate table{none, one entry, two entries} (+ two layouts with a 40000-byte section, layouts with NumberOfRvaAndSizes {5,6,10,15}, layouts carrying a COFF symbol table); " +
+		Rule: "PE layouts from the product {PE32,PE32+} x e_lfanew{0x40,0x48,0x80} x section count 0..n x every file order vs header order x raw size{0,8,13} x gap{0,4} x SizeOfHeaders slack{0,16} x trailing length 0..9 x certificate table{none, one entry, two entries} (+ two layouts with a 40000-byte section, layouts with NumberOfRvaAndSizes {5,6,10,15}, layouts carrying a COFF symbol table, layouts whose section boundary falls on / next to the 32 KiB chunk edge of the hashed stream); every base image also through 5 other io.ReaderAt implementations (ReadAt-only, advanced cursor, open-ended and exact SectionReader, strings.Reader); " +
 			"per layout the library digest is compared with the from-the-specification digest of the image zero-padded to 8, then every byte position is changed (XOR 0xFF; thorough also XOR 0x01) and both sides are run again: if the reference still classifies the image as well-formed the digests must agree " +
 			"(covered byte => both change identically, excluded byte => both unchanged); plus the certificate-table-stripped twin, the repository's binaries, and the positional reader against slicing for all part-size vectors over {1,2,3} (<=4 parts, optionally followed by one empty part as the parser builds for empty trailing data) x all (offset,length). " +
 			"non-trivial = library and reference both produced a digest for the (mutated) image and they were compared; distinct = distinct image bytes",
@@ -124,6 +125,20 @@ func c01Layouts(tier string, f func(i int, l pegen.Layout)) {
 				}
 			}
 		}
+		// a hashed-range boundary exactly on io.Copy's 32 KiB chunk edge (and one byte either side)
+		for _, d := range []int{-1, 0, 1} {
+			for _, ce := range certs {
+				l := peChunkBoundaryLayout()
+				l.PE32Plus = plus
+				if !plus {
+					l.Secs[0].RawSize += 16 // PE32 optional header is 16 bytes shorter
+				}
+				l.Secs[0].RawSize += d
+				l.Certs = ce
+				f(i, l)
+				i++
+			}
+		}
 		for _, ns := range []int{1, 3} {
 			for _, ce := range certs {
 				f(i, pegen.Layout{PE32Plus: plus, Lfanew: 0x48, Secs: []pegen.Sec{{RawSize: 8}, {RawSize: 13}}, Trailing: 2, Certs: ce, Symbols: ns})
@@ -131,6 +146,39 @@ func c01Layouts(tier string, f func(i int, l pegen.Layout)) {
 			}
 		}
 	}
+}
+
+// readerKinds are io.ReaderAt implementations a caller may hand to Parse: the positional
+// contract is the same for all of them, so the digest must be too.
+var readerKinds = []struct {
+	name string
+	mk   func(img []byte) io.ReaderAt
+}{
+	{"ReadAt-only wrapper", func(img []byte) io.ReaderAt { return struct{ io.ReaderAt }{bytes.NewReader(img)} }},
+	{"*bytes.Reader whose read cursor was advanced", func(img []byte) io.ReaderAt {
+		r := bytes.NewReader(img)
+		r.Read(make([]byte, 2))
+		return r
+	}},
+	{"open-ended io.SectionReader", func(img []byte) io.ReaderAt { return io.NewSectionReader(bytes.NewReader(img), 0, 1<<62) }},
+	{"exact io.SectionReader", func(img []byte) io.ReaderAt { return io.NewSectionReader(bytes.NewReader(img), 0, int64(len(img))) }},
+	{"*strings.Reader whose read cursor was advanced", func(img []byte) io.ReaderAt {
+		r := strings.NewReader(string(img))
+		r.Read(make([]byte, 3))
+		return r
+	}},
+}
+
+func libDigestVia(r io.ReaderAt) (d []byte, perr error, pn *hx.Panic) {
+	pn = hx.Try(func() {
+		p, err := authenticode.Parse(r)
+		if err != nil {
+			perr = err
+			return
+		}
+		d = p.Hash(crypto.SHA256)
+	})
+	return
 }
 
 func libDigest(img []byte) (d []byte, perr error, pn *hx.Panic) {
@@ -204,6 +252,19 @@ func c01Image(c *hx.Ctx, img []byte, desc string, masks []byte, flipStride int) 
 		default:
 			c.Outcome("base-digest-equal")
 			c.Nontrivial(img)
+		}
+	}
+	// the same image through other io.ReaderAt implementations
+	for _, rk := range readerKinds {
+		if !c.Next() {
+			continue
+		}
+		got, perr, pn := libDigestVia(rk.mk(img))
+		if pn != nil || perr != nil || !bytes.Equal(got, want) {
+			c.Outcome("reader-kind-mismatch")
+			c.Violation("C01 digest depends on the io.ReaderAt implementation the image is read through ("+rk.name+")", map[string]any{"layout": desc, "library": hx8(got), "specification": hx8(want), "error": fmt.Sprint(perr, pn)})
+		} else {
+			c.Outcome("reader-kind-equal")
 		}
 	}
 	// certificate-table-stripped twin: same digest by definition of the exclusions
@@ -308,7 +369,7 @@ func c01Run(c *hx.Ctx, tier, unit string) {
 			}
 			c.Count("layouts", 1)
 			stride := 1
-			if l.Big {
+			if l.Big || len(img) > 20000 {
 				stride = 97
 			}
 			c01Image(c, img, c01Describe(l), masks, stride)
